@@ -6,6 +6,17 @@ with exactly-zero upper / lower bounds and a one-sided bound, DRO with
 each active rewrite in each of its variants.  Every rewrite is applied by a builder that takes the spec and the
 set of active rewrites (rsmc/ref/c09c15_rewrite.py).  Oracle: the optimum of the rewritten model equals the optimum
 of the base build (no rewrite) under the same solver; an exception on one side only is a disagreement.
+
+Family OWN SETS (bases ro_own_<rel>_<where>, 5 x 4 = 20 bases): ro models - and under R9 their single-scenario dro
+twins - whose robust constraints carry their OWN forall set Z1 (Z2) different from the default set Z0 of the worst-case
+objective (minmax / maxmin, minsup / maxinf).  rel: own set inside the default set | containing it | shifted (neither
+contains the other) | a 1-norm cut of the default box | the default set a 1-norm cut of the own box.  where: the own set
+on the FIRST constraint handed to st | on the LAST | on EVERY robust constraint | two different own sets on the first and
+the last.  Crossed with the whole rewrite group exactly like the other bases (so with R9 ro <-> dro, where the own set is
+given as forall(support constraints) or forall(a further ambiguity set), with every R8 list / varargs spelling of
+forall / minmax / st / suppset, R1 minmax <-> maxmin, R2 orders ...).  Oracle, in addition to base == rewritten: an
+ABSOLUTE reference independent of rsome - all rows are affine in z and all sets polytopes, so the model's optimum is
+the LP over the vertex lists of each row's own / default set (scipy.optimize.linprog, rsmc/ref/sets.py vertices).
 """
 import itertools
 
@@ -15,14 +26,24 @@ CHUNK = 8
 FLOOR = 0.45
 RULE = ('every base model x solver x every subset of the rewrite group of size <= k (k = 2 quick, 3 thorough) x every '
         'combination of variants of the active rewrites, plus every subset of size k+1 with the first variant of each;  palette = VERIF_SEED mod 4 in the quick tier, all 4 in the '
-        'thorough tier; non-trivial = at least one rewrite active, both builds report optimal and agree')
+        'thorough tier; non-trivial = at least one rewrite active, both builds report optimal and agree.  '
+        'Own-set family: every (relation of own to default set: in / out / shift / n1 / n1r) x (placement: first / last / '
+        'all / two own sets) base x solver (default; thorough: + ECOS) x the same subsets of rewrites (quick: without the '
+        'size k+1 first-variant subsets); each case is '
+        'compared with the base build AND with the vertex-list LP optimum; non-trivial = optimal, equal to the reference, '
+        'and the reference is measurably set-sensitive: replacing the own set of any resource row by the default set, or '
+        'giving all rows the default set, moves the reference optimum by more than 1e-3')
 ASSUMPTIONS = [
     'the rewrites are meaning-preserving on these specs by elementary algebra (positive scaling by a dyadic factor, '
     'negation of both sides, equality = two inequalities, a box = an infinity-norm ball = 2n linear rows)',
     'LP answers of HiGHS agree to 1e-6(1+|v|); ECOS / Gurobi-barrier answers of two formulations to 1e-4(1+|v|)',
     'a solver status other than optimal / infeasible / unbounded is inconclusive',
+    'own-set family: a robust row that is affine in z holds on a polytope iff it holds at its vertices, so the LP over '
+    'the exact vertex lists (boxes, box with 1-norm cut, box with an equality; d = 2) is the exact robust counterpart, '
+    'also for the linear decision rule (its coefficients are LP variables)',
 ]
-TRUSTED = ['CPython', 'NumPy', 'the solvers behind rsome default / eco_solver / grb_solver, used on both sides']
+TRUSTED = ['CPython', 'NumPy', 'the solvers behind rsome default / eco_solver / grb_solver, used on both sides',
+           'scipy.optimize.linprog (HiGHS) and the vertex enumeration of rsmc/ref/sets.py for the own-set reference']
 
 VARIANTS = {'R1': ['1'], 'R2': ['v', 'c', 'vc'], 'R3': ['neg', 'flip', 'sub'], 'R4': ['1'], 'R5': ['lin', 'ninf'],
             'R6': ['loop', 'elem'], 'R7': ['2', '0.4', '2.5'], 'R8': ['args', 'gen', 'tup', 'bl', 'll', 'lb'], 'R9': ['1']}
@@ -30,6 +51,10 @@ BASES = ['lp', 'milp', 'socp', 'ro_box', 'ro_norm', 'ro_ball', 'ro_boxeq', 'ro_z
 HOWS = {'lp': ['def', 'eco'], 'milp': ['def', 'ort'], 'socp': ['eco', 'grb'], 'ro_box': ['def', 'eco'], 'ro_norm': ['def', 'eco'],
         'ro_ball': ['eco'], 'ro_boxeq': ['def'], 'ro_zbox': ['def', 'eco'], 'ro_zmir': ['def'], 'dro': ['def', 'eco'], 'dro_pl': ['def']}
 NOT_APPLICABLE = {('dro', 'R9'), ('dro_pl', 'R9'), ('milp', 'R9')}
+OWN_RELS = ['in', 'out', 'shift', 'n1', 'n1r']
+OWN_WHERES = ['f', 'l', 'a', 'two']
+OWN_BASES = ['ro_own_%s_%s' % (r, w) for r in OWN_RELS for w in OWN_WHERES]
+OWN_HOWS = {'quick': ['def'], 'thorough': ['def', 'eco']}
 
 
 def gen_cases(tier, seed):
@@ -49,6 +74,12 @@ def gen_cases(tier, seed):
                     for how in HOWS[base]:
                         for pal in pals:
                             yield {'base': base, 'how': how, 'pal': pal, 'act': act}
+                if k > kmax and not thorough:
+                    continue        # own-set family, quick tier: subsets of size <= k only (thorough: also size k+1)
+                for base in OWN_BASES:
+                    for how in OWN_HOWS[tier]:
+                        for pal in pals:
+                            yield {'base': base, 'how': how, 'pal': pal, 'act': act}
 
 
 def exhaustive(tier):
@@ -58,7 +89,9 @@ def exhaustive(tier):
 def bounds(tier):
     return {'rewrites': 9, 'max_simultaneous_rewrites_all_variants': 3 if tier == 'thorough' else 2,
             'max_simultaneous_rewrites_first_variant': 4 if tier == 'thorough' else 3, 'bases': len(BASES),
-            'palettes': 4 if tier == 'thorough' else 1}
+            'palettes': 4 if tier == 'thorough' else 1,
+            'own_set_bases': len(OWN_BASES), 'own_set_relations': OWN_RELS, 'own_set_placements': OWN_WHERES,
+            'own_set_solvers': OWN_HOWS[tier], 'own_set_oracle': 'base build + vertex-list LP (scipy linprog)'}
 
 
 def worker_init():
